@@ -294,3 +294,35 @@ def find_ctor_returns(summ: Summary, cls: ClassInfo) -> List[Tuple[object, tuple
             else:
                 out.append((e, None))
     return out
+
+
+
+def adapter_selections(summ, pkg=None):
+    """Call events of `summ` that construct the adapter class selected from the ADAPTERS table.
+
+    Two spellings select a row: the dispatch loop (`for name, data_cls, adapter_cls in ADAPTERS: if <test>: adapter_cls(...)`)
+    and a lookup table built from the rows (`{name: adapter_cls for name, _, adapter_cls in ADAPTERS}[key](...)`).
+    Yields dicts: event, form ('loop' | 'table'), elem (the row term), key (table form: the lookup key; the dict is
+    keyed by column `keycol`), loop id."""
+    from sa.sym import walk
+    pkg = pkg or AOEF_PKG
+    table = ("global", f"{pkg}:ADAPTERS", "assign")
+    out = []
+    for c in summ.calls:
+        f = c.term[1]
+        if f[0] != "sub":
+            continue
+        # loop form: elem(L)[2] with L a statement loop over ADAPTERS
+        if f[1][0] == "elem" and f[2] == ("const", 2):
+            li = summ.loops.get(f[1][1])
+            if li is not None and li.iter == table and li.kind == "for":
+                out.append({"event": c, "form": "loop", "elem": f[1], "loop": li.id})
+                continue
+        # table form: {row[i]: row[2] for row in ADAPTERS}[key]
+        d, key = f[1], f[2]
+        if d[0] == "comp" and d[1] == "dict" and len(d[3]) == 1 and d[3][0][1] == table and not d[3][0][2]:
+            e = ("elem", d[3][0][0])
+            kv = d[2]
+            if kv[0] == "kv" and kv[2] == ("sub", e, ("const", 2)) and kv[1][0] == "sub" and kv[1][1] == e and kv[1][2][0] == "const":
+                out.append({"event": c, "form": "table", "elem": e, "key": key, "keycol": kv[1][2][1], "loop": d[3][0][0]})
+    return out
